@@ -40,7 +40,7 @@ def gen_scenario(rng, d, big=False, many=False):
         benches = []
         for b in (("Ba", "Bb", "Bc", "Bd", "Be", "Bf") if many else ("Ba", "Bb", "Bc")[:rng.randint(1, 3)]):
             if rng.random() < 0.4:
-                benches.append({b: {"tags": rng.choice([["fast"], ["fast", "slow"], ["slow"]])}})
+                benches.append({b: {"tags": rng.choice([["fast"], ["fast", "slow"], ["slow"], ["fa\x0bst"], ["s\u2028low", "fast"], ["x\x1cy\x85z"]])}})
             else:
                 benches.append(b)
         suites[s] = {"gauge_adapter": "RebenchLog", "command": "%(suite)s %(tag)s %(executor)s %(benchmark)s %(invocation)s",
@@ -111,7 +111,7 @@ def script_for(sc, serial):
 
 
 def start_key(args):
-    p = args.split()
+    p = [w for w in args.split(" ") if w != ""]      # blanks only: a tag may hold other white space
     # /x/exeN S tag E B inv  (tag may be empty)
     inv = int(p[-1])
     bench, exe = p[-2], p[-3]
